@@ -9,7 +9,7 @@ AST extraction from pyipmi/interfaces/{rmcp,ipmbdev,aardvark}.py of the working 
    test / assignment / call with its arguments, break / continue / raise / return / assert, the except
    clauses.  Local variables are numbered (parameters, then first assignment in source order), so
    renaming one is invisible; docstrings, comments, exception messages and the text of log().debug(...)
-   calls are dropped (the subscripts a log call evaluates are kept).  Nothing is recognised or
+   calls are dropped (the subscripts and calls a log call evaluates are kept).  Nothing is recognised or
    interpreted here: the translation is syntax-directed, and whatever is outside the grammar becomes
    `.other <crc32 of ast.dump>`.  `Props.C04.source_shape_{rmcp,ipmbdev,aardvark}` compare the result
    with the values the hand-written step functions document (`Loops.Shape.*`): where the sequence number
@@ -311,13 +311,20 @@ class Shape(object):
         pad = ' ' * (ind + 2)
         return 'py[\n' + ',\n'.join(pad + i for i in items) + ']'
 
-    def _subs(self, n):
-        """outermost subscripts below n in source order (what a logging call can trip over)"""
-        if isinstance(n, _SCOPES):
-            return []
+    def _effects(self, n):
+        """What evaluating n can do besides producing a value that is thrown away: the outermost subscripts
+        (IndexError) and calls below n, in source order.  `'<sep>'.join(…)` is pure and looked through."""
         if isinstance(n, ast.Subscript):
             return [n]
-        return [x for c in ast.iter_child_nodes(n) for x in self._subs(c)]
+        if isinstance(n, ast.Call):
+            f = n.func
+            if not (isinstance(f, ast.Attribute) and f.attr == 'join' and isinstance(f.value, ast.Constant)
+                    and isinstance(f.value.value, str)):
+                return [n]
+        if isinstance(n, (ast.Lambda, ast.FunctionDef, ast.AsyncFunctionDef, ast.ClassDef, ast.NamedExpr, ast.Await,
+                          ast.Yield, ast.YieldFrom)):
+            return [n]
+        return [x for c in ast.iter_child_nodes(n) for x in self._effects(c)]
 
     def s(self, n, ind):
         if isinstance(n, ast.Expr):
@@ -325,7 +332,7 @@ class Shape(object):
             if isinstance(v, ast.Call) and isinstance(v.func, ast.Attribute) and isinstance(v.func.value, ast.Call) \
                     and isinstance(v.func.value.func, ast.Name) and v.func.value.func.id == 'log' \
                     and not v.func.value.args and not v.func.value.keywords:
-                return '.log ' + self.es([c for a in list(v.args) + [k.value for k in v.keywords] for c in self._subs(a)])
+                return '.log ' + self.es([c for a in list(v.args) + [k.value for k in v.keywords] for c in self._effects(a)])
             return '.expr ' + self.e(v)
         if isinstance(n, ast.Assign) and len(n.targets) == 1:
             return '.assign %s %s' % (self.e(n.targets[0]), self.e(n.value))
@@ -355,8 +362,8 @@ class Shape(object):
             x = n.exc
             if x is None:
                 return '.raise .none'
-            if isinstance(x, ast.Call):        # the message is not part of the shape
-                x = x.func
+            if isinstance(x, ast.Call) and not any(self._effects(a) for a in list(x.args) + [k.value for k in x.keywords]):
+                x = x.func                     # the message is not part of the shape
             if isinstance(x, (ast.Name, ast.Attribute)):
                 return '.raise ' + self.e(x)
         if isinstance(n, ast.Return):
